@@ -23,6 +23,9 @@ META = {
     'technique': 'static analysis: shared-state and effect audit over the AST (mutable defaults, module/class state, who-may-call for nondeterminism, set-order dataflow)',
 }
 
+
+META['explanation'] += ' Rounds 4-5: ' + 'R7 no object/class/module state is a one-shot iterator (map/filter/zip/generator).'
+
 MUT_METHODS = {'append', 'extend', 'insert', 'pop', 'remove', 'clear', 'update', 'setdefault', 'popitem', 'add', 'discard', 'sort', 'reverse'}
 
 
